@@ -551,7 +551,14 @@ def rule_view(ctx: Ctx, rep: Report) -> None:
         rep.ob(rule, what, q in found, f"{mi.relpath}:1", f"psbt_view reaches {q}" if q in found else f"psbt_view no longer uses {q}: a second implementation")
 
 
+def rule_own_fields(ctx: Ctx, rep: Report) -> None:
+    """C11.own_fields: an object hands its own fields to the functions it delegates to (see sigcommon.rule_own_fields_forwarded)."""
+    from rules.sigcommon import rule_own_fields_forwarded
+    rule_own_fields_forwarded(ctx, rep, "C11.own_fields", ('btclib.psbt.psbt.', 'btclib.psbt.psbt_in', 'btclib.psbt.psbt_out'), 20)
+
+
 RULES = [
+    ("C11.own_fields", rule_own_fields),
     ("C11.combine_fields", rule_combine_fields),
     ("C11.merge_rule", rule_merge_rule),
     ("C11.identity_first", rule_identity_first),
@@ -563,6 +570,8 @@ RULES = [
 ]
 
 CONTROLS = [
+    {"rule": "C11.own_fields", "name": "PsbtIn.assert_valid checks the sha256 preimages of nobody", "module": "btclib.psbt.psbt_in",
+     "edit": lambda ctx: M.sub_expr(ctx, "btclib.psbt.psbt_in.PsbtIn.assert_valid", lambda n: isinstance(n, ast.Call) and call_name(n) == "_assert_valid_sha256_preimages", "_assert_valid_sha256_preimages()")},
     {"rule": "C11.combine_fields", "name": "combine forgets witness_script of outputs", "module": P,
      "edit": lambda ctx: M.sub_expr(ctx, f"{P}.combine", lambda n: isinstance(n, ast.Expr) and "psbt.outputs[i], out, 'witness_script'" in norm(n), "pass")},
     {"rule": "C11.merge_rule", "name": "sequence merged by truthiness", "module": P,
